@@ -708,7 +708,19 @@ class VM:
             if not isinstance(obj, JSObject):
                 raise JSTypeError("Cannot use 'in' operator on non-object")
             key_str = to_string(key)
-            self.stack.append(obj.has(key_str))
+            # HasProperty: own data or accessor properties, then the prototype chain
+            found = False
+            cur = obj
+            while cur is not None and not found:
+                found = (
+                    cur.has(key_str)
+                    or key_str in cur._getters
+                    or key_str in cur._setters
+                    or (isinstance(cur, JSArray) and key_str.isdigit()
+                        and int(key_str) < len(cur._elements))
+                )
+                cur = getattr(cur, "_prototype", None)
+            self.stack.append(found)
 
         # Control flow
         elif op == OpCode.JUMP:
